@@ -4,6 +4,7 @@
     that the accounting verdict is EXACT: it accepts precisely the files in which every id below the high-water mark
     is exactly one of reachable-once, part of the freelist page, or listed once as free. *)
 From Bbolt Require Import Base Consts Spec Layout LayoutProofs LayoutOrderProofs.
+From Bbolt Require Check CheckProofs.
 
 (** sound: "consistent" means no page is unreachable-and-unfreed, reachable-and-free, referenced twice, or freed twice *)
 Theorem C19_accounting_verdict_sound : forall v free,
@@ -29,3 +30,61 @@ Theorem C19_order_verdict_means_sorted : forall rd ps fuel base limit inline lo 
   (forall k e, In (k, e) (r_ents d) -> opt_le lo k = true /\ opt_lt k hi = true).
 Proof. exact dec_page_sorted. Qed.
 Print Assumptions C19_order_verdict_means_sorted.
+
+Module CheckModel.
+Import Check CheckProofs.
+
+(** ---- Check.v: the line-for-line model of Tx.check itself (compared with the real Tx.Check on every swept file) ---- *)
+
+(** freed twice: an "already freed" report for an id exactly when it occurs again in the free list; none iff the list has no duplicate *)
+Theorem C19_freed_twice_reported : forall l, dup_errs [] l = [] <-> NoDup l.
+Proof. exact dup_errs_nodup. Qed.
+Print Assumptions C19_freed_twice_reported.
+
+(** unreachable yet not free: the final sweep reports exactly the ids below the mark that the walk did not reach and the free list does not hold *)
+Theorem C19_unreachable_unfreed_reported : forall rd ps freed hwm fuel flrun root errs,
+  check rd ps freed hwm fuel flrun root = Some errs ->
+  exists reach e, check_bucket rd ps freed hwm fuel root (seed freed hwm flrun) = Some (reach, e) /\
+    forall i, In (EUnreachUnfreed i) errs <-> i < hwm /\ ~ In i reach /\ ~ In i freed.
+Proof. exact check_sweep_complete. Qed.
+Print Assumptions C19_unreachable_unfreed_reported.
+
+(** reachable yet free, for the pages the meta points at directly: a meta page or a page of the free list's own run that is listed as
+    free is reported.  The pinned code did not test this (defect D14, found while attempting the partition theorem below: the
+    statement needed "the seed is disjoint from the free ids" as a hypothesis; repaired by a fix: commit, and the model mirrors the repair). *)
+Theorem C19_meta_and_freelist_pages_listed_free_reported : forall rd ps freed hwm fuel flrun root errs,
+  check rd ps freed hwm fuel flrun root = Some errs ->
+  forall id, id < hwm -> In id (flrun ++ [0; 1]) -> In id freed -> In (EReachFreed id) errs.
+Proof. exact check_seed_free_reported. Qed.
+Print Assumptions C19_meta_and_freelist_pages_listed_free_reported.
+
+(** one page of the walk: no report iff its stored id is within bounds, no id of its run was reached before (referenced twice),
+    no id of its run is free (reachable yet free - every id of an overflow run, D8), and it is a branch or leaf page (invalid type) *)
+Theorem C19_page_classes_exact : forall rd ps freed hwm pg s,
+  snd (verify_reachable rd ps freed hwm pg s) = snd s <-> page_ok rd ps freed hwm pg (fst s).
+Proof. exact verify_reachable_silent_iff. Qed.
+Print Assumptions C19_page_classes_exact.
+
+(** keys out of order: a leaf page draws no key-order report iff its keys are strictly increasing, not below the parent's separator and below the next one *)
+Theorem C19_leaf_key_order_exact : forall rd ps f pg mino maxo errs last,
+  is_leaf rd ps pg = true -> key_order rd ps (S f) pg mino maxo = Some (errs, last) ->
+  (errs = [] <->
+   strictly_inc (leaf_keys rd ps pg) = true /\
+   match leaf_keys rd ps pg with k0 :: _ => opt_le mino k0 = true | [] => True end /\
+   Forall (fun k => opt_lt k maxo = true) (leaf_keys rd ps pg)).
+Proof. exact key_order_leaf_clean. Qed.
+Print Assumptions C19_leaf_key_order_exact.
+
+(** a clean verdict of Tx.check IS the partition of C07 (for arbitrary file content): the free ids are pairwise distinct, no reached id
+    is reached twice, none is free, and every id below the mark is reached or free - provided the meta pages and the freelist run lie
+    below the mark (what the walk cannot see is exhibited in CheckProofs.v: clean_with_freelist_run_past_mark, clean_with_free_id_past_mark,
+    clean_with_run_past_mark) *)
+Theorem C19_clean_verdict_means_partition : forall rd ps freed hwm fuel flrun root,
+  check rd ps freed hwm fuel flrun root = Some [] -> NoDup (flrun ++ [0; 1]) ->
+  (forall id, In id (flrun ++ [0; 1]) -> id < hwm) ->
+  NoDup freed /\
+  exists reach, NoDup reach /\ (forall id, In id reach -> ~ In id freed) /\ (forall i, i < hwm -> In i reach \/ In i freed).
+Proof. exact check_clean_partition. Qed.
+Print Assumptions C19_clean_verdict_means_partition.
+
+End CheckModel.
